@@ -245,7 +245,13 @@ impl Story {
                         }
                     }
 
-                    self.reset_errors();
+                    // Everything has been handed to the handler: forget it, so
+                    // that a later continue does not deliver it again (a live
+                    // look-ahead snapshot holds a copy of the same messages).
+                    self.get_state_mut().reset_errors_and_warnings();
+                    if let Some(snapshot) = self.state_snapshot_at_last_new_line.as_mut() {
+                        snapshot.reset_errors_and_warnings();
+                    }
                 }
                 // No error handler: throw for errors, silently discard warnings
                 None => {
